@@ -3,8 +3,11 @@ import MinterProofs.AmountsOrders
 import MinterProofs.AmountsBancor
 import MinterProofs.AmountsPool
 import MinterProofs.AmountsBegin
+import MinterProofs.AmountsRoute
+import MinterProofs.AmountsRouteBuy
+import MinterProofs.AmountsRouteIds
 /-
-  C02 — no negative amounts, volume ≤ max supply, pool reserves positive: the wider theorems (transactions and BeginBlock).
+  C02 — no negative amounts, volume ≤ max supply, pool reserves positive: the wider theorems (all transaction types and BeginBlock).
 
   The invariant is `AmountsOk` (Props/C02.lean), the Prop form of the monitor `amountsOk` the driver evaluates on the node's export at
   every commit (`amountsOk_sound : amountsOk s = true → AmountsOk s`).  Every theorem is about `deliverTx` / `beginBlock` /
@@ -19,26 +22,27 @@ import MinterProofs.AmountsBegin
     `pairSell_planSafe`) — given the balance check the handler made; the state it leaves is described by `FeeFrame`.
   * `C02_failure_fee` (AmountsFail.lean) — the failure path of DeliverTx for ALL 37 types: prologue / price rejections (no move) and the
     failure fee of a handler rejection, all three routes, capped at the payer's balance or not.
-  * `C02_deliver_preserves_32_types` (below) — accepted deliveries of the 32 types
-        1 Send, 2 SellCoin, 3 SellAllCoin, 4 BuyCoin, 5 CreateCoin, 6 DeclareCandidacy, 7 Delegate, 8 Unbond, 9 RedeemCheck,
-        10 SetCandidateOn, 11 SetCandidateOff, 12 CreateMultisig, 13 Multisend, 14 EditCandidate, 15 SetHaltBlock, 16 RecreateCoin,
-        17 EditCoinOwner, 18 EditMultisig, 20 EditCandidatePublicKey, 26 EditCandidateCommission, 27 MoveStake, 28 MintToken,
-        29 BurnToken, 30 CreateToken, 31 RecreateToken, 32 VoteCommission, 33 VoteUpdate, 34 CreateSwapPool, 35 AddLimitOrder,
-        36 RemoveLimitOrder, 37 LockStake, 38 Lock
-    with the commission paid by ANY of the three routes, including the ticker burn and the nonce bump, plus every rejected delivery of
-    any type.  The five types of `C02_partial_1_13_17_28_29` are thereby covered with custom-coin commissions too.
-  * `C02_add_liquidity` (21), `C02_remove_liquidity` (22) — accepted deliveries, every commission route, including the commission swapped
-    through the very pool the liquidity goes to / comes from (the execution then runs on the reserves after that swap: `sim_eq_real`).
+  * `C02_deliver_preserves_all_modelled` (below) — EVERY delivery `deliverTx` answers, all 37 types (1–18, 20–38), accepted with the
+    commission paid by any of the three routes (ticker burn and nonce bump included) or rejected, under the record `DeliverHyps`.
+    It is assembled from
+      `C02_deliver_preserves_32_types`  1 Send, 2 SellCoin, 3 SellAllCoin, 4 BuyCoin, 5 CreateCoin, 6 DeclareCandidacy, 7 Delegate, 8 Unbond,
+                                        9 RedeemCheck, 10/11 SetCandidateOn/Off, 12 CreateMultisig, 13 Multisend, 14 EditCandidate,
+                                        15 SetHaltBlock, 16 RecreateCoin, 17 EditCoinOwner, 18 EditMultisig, 20 EditCandidatePublicKey,
+                                        26 EditCandidateCommission, 27 MoveStake, 28 MintToken, 29 BurnToken, 30 CreateToken,
+                                        31 RecreateToken, 32 VoteCommission, 33 VoteUpdate, 34 CreateSwapPool, 35 AddLimitOrder,
+                                        36 RemoveLimitOrder, 37 LockStake, 38 Lock
+      `C02_add_liquidity` (21), `C02_remove_liquidity` (22)   also with the commission swapped through the very pool concerned (`sim_eq_real`)
+      `C02_sell_pool` (23), `C02_sell_all_pool` (25), `C02_buy_pool` (24)   routes of up to five coins over pools without orders
+    (the five types of `C02_partial_1_13_17_28_29` are thereby covered with custom-coin commissions too).
   * `C02_begin_preserves`, `C02_begin_preserves_no_evidence` — `beginBlock`: absence accounting, byzantine slashes, matured funds.
 
   ## Coverage table (type × commission route)
-      the 32 types above                       base ✔   bancor ✔ (OracleSound)   pool ✔
-      21 AddLiquidity, 22 RemoveLiquidity      base ✔   bancor ✔                 pool ✔    (own theorems, extra hypotheses below)
-      failure fee / rejection, all 37 types    base ✔   bancor ✔                 pool ✔
-      23 SellSwapPool, 24 BuySwapPool, 25 SellAllSwapPool   accepted deliveries NOT covered (their rejections are)
+      all 37 types, accepted                   base ✔   bancor ✔ (OracleSound)   pool ✔
+      all 37 types, rejected / failure fee     base ✔   bancor ✔                 pool ✔
       BeginBlock                               ✔ (with the coverage hypothesis `byzPhaseFits` when the block carries evidence)
       EndBlock (rewards, validator set)        NOT covered here (C19 has the payout part)
-    "Pool" means a pool without limit orders: for a pool with orders the model stops with `Stop.unmodelled` instead of answering.
+    "Pool" always means a pool without limit orders: where a swap or a commission would cross a pool that carries orders the model does
+    not answer (`Stop.unmodelled`), so `deliverTx … = .ok out` cannot hold and the theorems say nothing — NOT covered.
     Not covered means: bound only by the monitor `amountsOk` on the node's export at every commit and by the model/node correspondence.
 
   ## Hypotheses, and why each is there
@@ -49,11 +53,12 @@ import MinterProofs.AmountsBegin
         candidate ids identify candidates (Unbond / MoveStake address the stake by candidate id),
         burnable coins have no reserve (BurnToken of the bancor-paid gas coin would otherwise lower the volume twice),
         price-table entries are not negative (the failure fee in a bancor coin asks the oracle for `saleAmount` of it).
-    `hpool` (34), `hsupply` (21)   the pool token's supply stays within the maximal coin supply.  Neither the model's handlers nor the Go
+    `pool34`, `supply21`   the pool token's supply stays within the maximal coin supply.  Neither the model's handlers nor the Go
         handlers check this (`Coins.AddVolume` / `CreateCoin` are called unconditionally); it cannot fail while supply² ≤ r0·r1 and coin
         volumes ≤ 10³³ pip, which is beyond `AmountsOk`.
-    `hlock` (22)           the sender holds less of the pool token than its whole supply (1000 units are locked at the zero address).
-    `PoolsSorted`, `CoinIdsWf` (21, 22)   pools are stored with `c0 < c1`; coin ids identify registry entries.
+    `lock22`               the sender holds less of the pool token than its whole supply (1000 units are locked at the zero address).
+    `PoolsSorted` (21–25), `CoinIdsWf` (22)   pools are stored with `c0 < c1`; coin ids identify registry entries.
+        (That no pool of a route is crossed twice is PROVED from the handlers' duplicate-pool check 710: `routeSellCheck_ids`, `routeBuyCheck_ids`.)
     `byzPhaseFits` (BeginBlock with evidence)   every slash is covered by the volume of the coin it is taken from — a consequence of
         conservation (volume = holdings, C01/C18), not of `AmountsOk`.
 -/
@@ -173,6 +178,99 @@ theorem C02_remove_liquidity (P : Params) (o : Oracle) (s s' : State) (b : Nat) 
     (fun price rd hp hr => by
       rw [(runData_liq P o s b t price).2 ht] at hr
       exact removeLiquidity_typed P o s t price rd ho hp hok hsorted hcoins hlock hr) h h0 ha hok
+
+/-! ### SellSwapPool (23), SellAllSwapPool (25) -/
+
+/-- **C02 (SellSwapPool, routes of up to five coins over pools without orders, every commission route).**
+    No pool is crossed twice: the handler's duplicate-pool check (code 710) refuses a pool id it has seen, and the same pair of coins
+    has the same pool id (`routeSellCheck_ids`, `routeDistinct_of_ids`); so every hop runs on reserves nobody touched before it and is
+    paid from what the previous hop credited (`routeSell_keeps`). -/
+theorem C02_sell_pool (P : Params) (o : Oracle) (s s' : State) (b : Nat) (t : TxIn) (out : Outcome)
+    (ho : OracleSound o) (hP : 0 ≤ P.minReserve) (hsorted : PoolsSorted s) (hv : 0 ≤ t.int "d.ValueToSell")
+    (ht : t.typ = 23) (h : deliverTx P o s b t = .ok out) (h0 : out.code = 0) (ha : applyChecked s out.plan = some s')
+    (hok : AmountsOk s) : AmountsOk s' :=
+  typed_preservesK P o s s' b t out ho hP
+    (fun price rd _ hr => by
+      rw [(runData_typ P o s b t price).1 ht] at hr
+      have hspec := sell_pool_spec P o s t price rd hr
+      simp only at hspec
+      obtain ⟨com, x, _, hcheck, _⟩ := hspec
+      exact sellPool_typed P o s t price rd hok hsorted hv
+        (routeDistinct_of_ids s hsorted _ _ (routeSellCheck_ids s _ _ _ _ _ _ _ _ hcheck).1) hr) h h0 ha hok
+
+/-- **C02 (SellAllSwapPool).** -/
+theorem C02_sell_all_pool (P : Params) (o : Oracle) (s s' : State) (b : Nat) (t : TxIn) (out : Outcome)
+    (ho : OracleSound o) (hP : 0 ≤ P.minReserve) (hsorted : PoolsSorted s)
+    (ht : t.typ = 25) (h : deliverTx P o s b t = .ok out) (h0 : out.code = 0) (ha : applyChecked s out.plan = some s')
+    (hok : AmountsOk s) : AmountsOk s' :=
+  typed_preservesK P o s s' b t out ho hP
+    (fun price rd _ hr => by
+      rw [(runData_typ P o s b t price).2.2.1 ht] at hr
+      have hspec := sell_all_pool_spec P o s t price rd hr
+      simp only at hspec
+      obtain ⟨com, x, _, _, hcheck, _⟩ := hspec
+      exact sellAllPool_typed P o s t price rd hok hsorted
+        (routeDistinct_of_ids s hsorted _ _ (routeSellCheck_ids s _ _ _ _ _ _ _ _ hcheck).1) hr) h h0 ha hok
+
+/-- **C02 (BuySwapPool).**  The moves of a buy route are executed from the last pool backwards, so between two moves the buyer may owe
+    the coin the next move hands him; the final state is in range (`routeBuy_keeps`: the invariant is `AmountsOk` of the state with the
+    debt credited back, the last debt is covered by the balance check of the handler, `routeBuyExec_le_check`). -/
+theorem C02_buy_pool (P : Params) (o : Oracle) (s s' : State) (b : Nat) (t : TxIn) (out : Outcome)
+    (ho : OracleSound o) (hP : 0 ≤ P.minReserve) (hsorted : PoolsSorted s)
+    (ht : t.typ = 24) (h : deliverTx P o s b t = .ok out) (h0 : out.code = 0) (ha : applyChecked s out.plan = some s')
+    (hok : AmountsOk s) : AmountsOk s' :=
+  typed_preservesK P o s s' b t out ho hP
+    (fun price rd _ hr => by
+      rw [(runData_typ P o s b t price).2.1 ht] at hr
+      have hspec := buy_pool_spec P o s t price rd hr
+      simp only at hspec
+      obtain ⟨com, x, _, hcheck, _⟩ := hspec
+      exact buyPool_typed P o s t price rd hok hsorted
+        (routeDistinct_of_ids_rev s hsorted _ _ (routeBuyCheck_ids P s _ _ _ _ _ _ _ _ hcheck).1) hr) h h0 ha hok
+
+/-! ### All transaction types together -/
+
+theorem runData_modelled (P : Params) (o : Oracle) (s : State) (b : Nat) (t : TxIn) (price : Int) (r : Except Nat Ready)
+    (h : runData P o s b t price = .ok r) : t.typ ∈ modelledTypes := by
+  unfold runData at h
+  split at h <;> first | (cases h; done) | (simp only [modelledTypes, *]; decide)
+
+/-- Everything the per-type theorems need, in one record (each field says which types it is for). -/
+structure DeliverHyps (P : Params) (s : State) (t : TxIn) (out : Outcome) : Prop where
+  wf : StateWf s
+  tx : TxNonneg t
+  /-- pools are stored with `c0 < c1` (types 21–25). -/
+  sorted : PoolsSorted s
+  /-- coin ids identify registry entries (type 22). -/
+  coinIds : CoinIdsWf s
+  /-- 34: the pool token's initial supply is within the maximal coin supply. -/
+  pool34 : t.typ = 34 → startingSupply (t.int "d.Volume0") (t.int "d.Volume1") ≤ P.maxSupply
+  /-- 21: the pool token's supply after the mint is within its maximal supply. -/
+  supply21 : t.typ = 21 → ∀ a c0 c1 a0 a1 lp liq, Move.poolMint a c0 c1 a0 a1 lp liq ∈ out.moves →
+    optProp (getCoin s lp) fun ci => ci.volume + liq ≤ ci.maxSupply
+  /-- 22: the sender holds less of the pool token than its whole supply (1000 units are locked). -/
+  lock22 : t.typ = 22 → ∀ lp, lpCoin s (t.nat "d.Coin0") (t.nat "d.Coin1") = some lp → balanceOf s t.sender lp.id < lp.volume
+
+/-- **C02, every delivery the model answers.**  Whatever `deliverTx` answers — any of the 37 transaction types, accepted with the
+    commission paid by any route or rejected with or without the failure fee — applying its plan preserves `AmountsOk`. -/
+theorem C02_deliver_preserves_all_modelled (P : Params) (o : Oracle) (s s' : State) (b : Nat) (t : TxIn) (out : Outcome)
+    (ho : OracleSound o) (hP : 0 ≤ P.minReserve) (hPo : 0 ≤ P.minOrderVolume) (hh : DeliverHyps P s t out)
+    (h : deliverTx P o s b t = .ok out) (ha : applyChecked s out.plan = some s') (hok : AmountsOk s) : AmountsOk s' := by
+  by_cases h0 : out.code = 0
+  swap
+  · exact C02_failure_fee P o s s' b t out ho hP hh.wf.prices h h0 ha hok
+  obtain ⟨_, price, rd, _, _, hr, _, _⟩ := deliver_accepted P o s b t out h h0
+  have hm := runData_modelled P o s b t price _ hr
+  by_cases h32 : t.typ ∈ c02Types
+  · exact C02_deliver_preserves_32_types P o s s' b t out ho hP hPo hh.wf hh.tx hh.pool34 (Or.inl h32) h ha hok
+  · simp only [modelledTypes, c02Types, List.mem_cons, List.mem_nil_iff, or_false] at hm h32
+    have h5 : t.typ = 21 ∨ t.typ = 22 ∨ t.typ = 23 ∨ t.typ = 24 ∨ t.typ = 25 := by omega
+    rcases h5 with e | e | e | e | e
+    · exact C02_add_liquidity P o s s' b t out ho hP hh.sorted hh.tx.volume0 (hh.supply21 e) e h h0 ha hok
+    · exact C02_remove_liquidity P o s s' b t out ho hP hh.sorted hh.coinIds (hh.lock22 e) e h h0 ha hok
+    · exact C02_sell_pool P o s s' b t out ho hP hh.sorted hh.tx.valueToSell e h h0 ha hok
+    · exact C02_buy_pool P o s s' b t out ho hP hh.sorted e h h0 ha hok
+    · exact C02_sell_all_pool P o s s' b t out ho hP hh.sorted e h h0 ha hok
 
 /-! ### BeginBlock -/
 
@@ -324,5 +422,29 @@ def c02BeginState : State :=
   (match beginBlock {} c02Oracle c02BeginState { height := 100, votes := [(77, false)], byz := [] } false with
    | .ok (s1, _) => amountsOk s1 && s1.frozen.length == 1 && balanceOf s1 1 7 == 1000000000000000000005
    | .error _ => false)
+
+/-- The example state with the pool token of pool 1 registered (coin 9, symbol `LP-1`; 1000 units at the zero address). -/
+def c02State3 : State :=
+  { c02State2 with
+    balances := c02State2.balances ++ [((1, 9), 999999999999999999999000), ((0, 9), 1000)],
+    coins := c02State2.coins ++ [{ id := 9, symbol := "LP-1", version := 0, volume := 1000000000000000000000000, reserve := 0, crr := 0,
+                                   maxSupply := 1000000000000000000000000000000000, owner := none, mintable := true, burnable := true }],
+    ncoins := 9 }
+
+def c02PoolTx (typ : Nat) (gas : Coin) (f : List (String × String)) : TxIn :=
+  { dec := true, rawLen := 100, typ := typ, nonce := 1, chain := 2, gasPrice := 1, gasCoin := gas, sigType := 1, sigOk := true, sender := 1, f := f }
+
+def c02Runs3 (t : TxIn) : Bool :=
+  amountsOk c02State3 &&
+  (match deliverTx {} c02Oracle c02State3 10200001 t with
+   | .ok out => out.code == 0 && (match applyChecked c02State3 out.plan with | some s1 => amountsOk s1 | none => false)
+   | .error _ => false)
+
+-- AddLiquidity, RemoveLiquidity, SellSwapPool, BuySwapPool, SellAllSwapPool are accepted on it, from and to states the monitor accepts
+#guard c02Runs3 (c02PoolTx 21 0 [("d.Coin0", "0"), ("d.Coin1", "8"), ("d.Volume0", "1000000"), ("d.MaximumVolume1", "2000000")])
+#guard c02Runs3 (c02PoolTx 22 0 [("d.Coin0", "0"), ("d.Coin1", "8"), ("d.Liquidity", "500000"), ("d.MinimumVolume0", "1"), ("d.MinimumVolume1", "1")])
+#guard c02Runs3 (c02PoolTx 23 0 [("d.Coins", "8,0"), ("d.ValueToSell", "1000000"), ("d.MinimumValueToBuy", "1")])
+#guard c02Runs3 (c02PoolTx 24 0 [("d.Coins", "0,8"), ("d.ValueToBuy", "1000000"), ("d.MaximumValueToSell", "5000000")])
+#guard c02Runs3 (c02PoolTx 25 8 [("d.Coins", "8,0"), ("d.MinimumValueToBuy", "1")])
 
 end Minter
